@@ -240,3 +240,77 @@ def version_conversion(ex, pres, fb, seqs):
             "to_v0_keeps_the_transaction": same_tx(v0.tx, tx),
             "to_v0_then_to_v2_keeps_the_transaction": same_tx(back.tx, tx),
             "source_unchanged": sand(p.version == 2, p.fallback_lock_time == fallback if fb else p.fallback_lock_time is None)}
+
+
+# ------------------------------------------------------------------ a signer's answer: anything but an added signature is refused
+from copy import deepcopy as _deepcopy
+from btclib.psbt.psbt import assert_signatures_only
+
+_TAMPER = ["none", "in_witness_utxo_value", "in_witness_utxo_script", "in_unknown_value", "in_unknown_new_key", "in_sequence", "in_sig_hash_type", "in_redeem_script", "in_hd_fingerprint",
+           "in_required_height", "out_unknown_value", "out_amount", "out_script", "out_hd_fingerprint", "global_unknown_value", "fallback_lock_time", "tx_version", "tx_modifiable_loosened",
+           "tx_modifiable_tightened"]
+
+
+def _request(ex):
+    pin = PsbtIn(previous_tx_id=_PREV.id, output_index=0, sequence=0xFFFFFFFD, witness_utxo=TxOut(5000, _SPK, check_validity=False), unknown={b"\xf0": b"\x01\x02"},
+                 hd_key_paths={_PUBS[0]: BIP32KeyOrigin(b"\x01\x02\x03\x04", [0x8000002C, 7], check_validity=False)}, redeem_script=b"", required_height_lock_time=700000, check_validity=False)
+    pout = PsbtOut(amount=4000, script_pub_key=_SPK, unknown={b"\xf1": b"\x03"}, hd_key_paths={_PUBS[1]: BIP32KeyOrigin(b"\x05\x06\x07\x08", [1], check_validity=False)}, check_validity=False)
+    return Psbt(2, [pin], [pout], 2, {}, unknown={b"\xf2": b"\x09"}, fallback_lock_time=5, tx_modifiable=0b001, check_validity=False)
+
+
+@ob("C11", "a_signers_answer_may_only_add_signatures", quick=[dict(what=w) for w in _TAMPER],
+    bound="a version 2 one-input request and an answer that is its copy with one non-signature field changed by a symbolic non-zero difference (utxo value / script byte, unknown value, a new unknown key, "
+          "sequence, sighash type, redeem script, key-origin fingerprint, required height lock, output amount / script / unknown / origin, global unknown, fallback lock time, tx version, modifiable "
+          "flags loosened or tightened): assert_signatures_only refuses every such answer except a tightened tx_modifiable, and accepts the unchanged copy",
+    functions=["btclib.psbt.psbt.assert_signatures_only", "btclib.psbt.psbt._assert_unchanged"], outside=["answers that add signatures (their verification is 256-bit arithmetic)", "musig2 maps"], min_ok=1, timeout=300)
+def signer_answer(ex, what):
+    ex.prefer_int()
+    request = _request(ex)
+    answer = _deepcopy(request)
+    d8 = ex.int("delta8", 1, 255)
+    d32 = ex.int("delta32", 1, 0xFFFF)
+    i, o = answer.inputs[0], answer.outputs[0]
+    if what == "in_witness_utxo_value":
+        i.witness_utxo = TxOut(5000 + d32, _SPK, check_validity=False)
+    elif what == "in_witness_utxo_script":
+        i.witness_utxo = TxOut(5000, _SPK[:5] + bytes([_SPK[5] ^ d8]) + _SPK[6:], check_validity=False)
+    elif what == "in_unknown_value":
+        i.unknown = {b"\xf0": bytes([1 ^ d8]) + b"\x02"}
+    elif what == "in_unknown_new_key":
+        i.unknown = {b"\xf0": b"\x01\x02", b"\xf7": bytes([d8])}
+    elif what == "in_sequence":
+        i.sequence = 0xFFFFFFFD - d32
+    elif what == "in_sig_hash_type":
+        i.sig_hash_type = ite(d8 % 2 == 0, 1, 3)
+    elif what == "in_redeem_script":
+        i.redeem_script = bytes([d8]) + b"\x51"
+    elif what == "in_hd_fingerprint":
+        i.hd_key_paths = {_PUBS[0]: BIP32KeyOrigin(bytes([1 ^ (d8 & 3 or 1)]) + b"\x02\x03\x04", [0x8000002C, 7], check_validity=False)}
+    elif what == "in_required_height":
+        i.required_height_lock_time = 700000 + d32
+    elif what == "out_unknown_value":
+        o.unknown = {b"\xf1": bytes([3 ^ d8])}
+    elif what == "out_amount":
+        o.amount = 4000 + d32
+    elif what == "out_script":
+        o.script_pub_key = _SPK[:7] + bytes([_SPK[7] ^ d8]) + _SPK[8:]
+    elif what == "out_hd_fingerprint":
+        o.hd_key_paths = {_PUBS[1]: BIP32KeyOrigin(bytes([5 ^ (d8 & 3 or 1)]) + b"\x06\x07\x08", [1], check_validity=False)}
+    elif what == "global_unknown_value":
+        answer.unknown = {b"\xf2": bytes([9 ^ d8])}
+    elif what == "fallback_lock_time":
+        answer.fallback_lock_time = 5 + d32
+    elif what == "tx_version":
+        answer.tx_version = 2 + d32
+    elif what == "tx_modifiable_loosened":
+        answer.tx_modifiable = 0b011
+    elif what == "tx_modifiable_tightened":
+        answer.tx_modifiable = 0b000
+    try:
+        assert_signatures_only(request, answer)
+        ok = True
+    except BTClibValueError:
+        ok = False
+    if what in ("none", "tx_modifiable_tightened"):
+        return {"accepted": ok}
+    return {"tampered_answer_refused": not ok}
